@@ -12,6 +12,7 @@ from dataclasses import dataclass, field
 from typing import Any
 
 I, S, B, N, O = "i", "s", "b", "n", "o"
+EXC_NAMES = ["ValueError", "IndexError", "KeyError"]
 
 
 def C(k: int):
@@ -133,6 +134,18 @@ class PyEmit:
     def s(self, s, ind: str, out: list) -> None:
         t = s[0]
         if t == "pass": out.append(ind + "pass")
+        elif t == "raise": out.append(f"{ind}raise {EXC_NAMES[s[1]]}()")
+        elif t == "try":
+            out.append(f"{ind}try:")
+            self.s(s[1], ind + "    ", out)
+            out.append(f"{ind}except ({', '.join(EXC_NAMES[k] for k in s[2])},):")
+            self.s(s[3], ind + "    ", out)
+            if s[4] != ("pass",):
+                out.append(f"{ind}else:")
+                self.s(s[4], ind + "    ", out)
+            if s[5] is not None:
+                out.append(f"{ind}finally:")
+                self.s(s[5], ind + "    ", out)
         elif t == "brk": out.append(ind + "break")
         elif t == "cont": out.append(ind + "continue")
         elif t == "decl": out.append(f"{ind}{self.v(s[1])}: {ty_py(self.decl[s[1]])} = {self.e(s[2])}")
@@ -238,6 +251,10 @@ def expr_lean(e) -> list:
 def stmt_lean(s) -> list:
     t = s[0]
     if t == "pass": return ["pass"]
+    if t == "raise": return ["RS", str(s[1])]
+    if t == "try":
+        return (["TR"] + stmt_lean(s[1]) + [str(len(s[2]))] + [str(k) for k in s[2]] + stmt_lean(s[3]) + stmt_lean(s[4])
+                + stmt_lean(s[5] if s[5] is not None else ("pass",)) + ["1" if s[5] is not None else "0"])
     if t == "brk": return ["BR"]
     if t == "cont": return ["CT"]
     if t == "decl": return ["D", str(s[1])] + expr_lean(s[2])
